@@ -184,6 +184,37 @@ def check_lis_plot(case, cc):
                 cc.cls('genlis:absent-output-checked', bool(res.get('absent_checked')))
         cc.cls('genlis:polyline-points>0', points > 0)
         cc.nt(bool(svgs) and plottable and len(shapes) >= 1)
+        # ---- one Plot object used for two log passes (the entry points PlotReadXML.hasDataToPlotLIS / plotLogPassLIS directly):
+        # first a log pass that has nothing the format plots, then this one - which must be plotted as if the object were new
+        if svgs and plottable and not single_record and case['frames'] % 2 == 0:
+            from TotalDepth.LIS.core import File, FileIndexer
+            from TotalDepth.util.plot import Plot
+            decoy = dict(case, curves=[dict(c, name='QQ%d' % i) for i, c in enumerate(case['curves'])])
+            p2 = os.path.join(d, 'DECOY.LIS')
+            with open(p2, 'wb') as f:
+                f.write(build_case(decoy)[0])
+            c19._silence()
+            try:
+                lps = []
+                for pth in (p2, path):
+                    fi = File.FileRead(pth, theFileId=pth, keepGoing=True)
+                    lps.append((fi, next(FileIndexer.FileIndex(fi).genLogPasses()).logPass))
+                plot = Plot.PlotReadXML(case['format'], 0)
+                first = plot.hasDataToPlotLIS(lps[0][1], case['format'])
+                second = plot.hasDataToPlotLIS(lps[1][1], case['format'])
+                cc.cls('genlis:one-plot-object-for-two-log-passes')
+                if first or not second:
+                    cc.dev('lis-input-produces-plot', 'plot-object-reused:has-data-answer', 'format %s: hasDataToPlotLIS says %r for a log pass of channels %s and then %r for %s' % (
+                        case['format'], first, [c['name'] for c in decoy['curves']], second, [c['name'] for c in case['curves']]))
+                else:
+                    out2 = os.path.join(d, 'reused.svg')
+                    fi, lp = lps[1]
+                    plot.plotLogPassLIS(fi, lp, lp.xAxisFirstEngVal, lp.xAxisLastEngVal, case['format'], out2, frameStep=1, title='reused')
+                    c19.check_svg(out2, cc, absent_info, route='generated-lis-plot %s (plot object reused)' % case['format'])
+            except Exception as err:  # noqa
+                cc.unexpected(err)
+            finally:
+                c19._unsilence()
 
 
 # ---------------------------------------------------------------------------------------------
